@@ -144,13 +144,23 @@ def work(ctx):
                 pass
         ctx.sample({"code": what, "variants": [n for n, _ in variants]})
 
-    for origin, k in corpus.code_objects(ctx.tier, rng, limit=6 if ctx.quick else None):
-        if len(k.co_code) < 3000 and (not ctx.quick or rng.random() < 0.5):
-            check(origin, k)
-    for src, mode in progen.programs(ctx, 40 if ctx.quick else 1000):
+    # the thorough tier is bounded by time (histories of up to 20 steps on every nested code object are slow):
+    # generated programs first, then as much of the corpus as fits; what was skipped is counted
+    import time
+    t_end = time.time() + (10 ** 9 if ctx.quick else 1500)
+    for src, mode in progen.programs(ctx, 40 if ctx.quick else 600):
         try:
             top = compile(src, "<gen>", mode, dont_inherit=True)
         except (SyntaxError, ValueError, RecursionError, MemoryError, OverflowError):
             continue
         for k in corpus.walk(top):
-            check("gen", k)
+            if time.time() < t_end - 700:
+                check("gen", k)
+            else:
+                ctx.count("skipped-by-time-budget")
+    for origin, k in corpus.code_objects(ctx.tier, rng, limit=6 if ctx.quick else 80):
+        if len(k.co_code) < 3000 and (not ctx.quick or rng.random() < 0.5):
+            if time.time() < t_end:
+                check(origin, k)
+            else:
+                ctx.count("skipped-by-time-budget")
